@@ -116,6 +116,7 @@ struct Gen {
     else if (pick < 92 && nrefs > 0) {
       e.op = 64;
       int nb = 1 + (int)rng.below(4);
+      if (rng.chance(0.15)) nb = 8 + (int)rng.below(24);     // long PL terms: many slopes follow the count in the file
       double bp = (double)rng.range(-20, 0);
       for (int i = 0; i < nb; ++i) {
         e.pl.push_back(number());
@@ -794,6 +795,8 @@ Emitted emit_nl_sized(const Model& m, EmitOpts o, size_t target, Rng& rng) {
 
 long hostile_value(Rng& rng, const Field& f) {
   std::vector<long> c = {-1, 0, 1, 2147483647L, 2147483648L, 4294967295L, f.val - 1, f.val + 1, 2147483646L, 65536, 1073741824L};
+  // counts whose multiples by an element size (8, 16, ...) wrap around 2^32 or 2^31 to something small
+  if (rng.chance(0.25)) { long k = 1 + (long)rng.below(7); long sh = 24 + (long)rng.below(8); c = {(k << 28) + 1, (k << 28) + 2, (1L << sh) + 1, (1L << sh) - 1, (k << 29) + 1, (3L << 28) + 1}; }
   if (f.bound >= 0) { c.push_back(f.bound); c.push_back(f.bound + 1); c.push_back(f.bound - 1); }
   // boundary values get the larger share
   long v = rng.pick(c);
